@@ -16,6 +16,27 @@ func init() {
 	Registry["C14"] = C14
 	Replayers["c14-case"] = replayC14
 	Replayers["c14-big"] = replayC14Big
+	Replayers["c14-spare"] = func(c json.RawMessage) (bool, string) {
+		var k c14Case
+		json.Unmarshal(c, &k)
+		var buf []byte
+		fmt.Sscanf(k.Buf, "%x", &buf)
+		want := c14Ref(buf, k.Pos, k.Width, k.Signed)
+		for _, spare := range []int{1, 2, 3, 4, 5, 8, 9} {
+			for _, fillB := range []byte{0x00, 0xFF} {
+				big := make([]byte, len(buf)+spare)
+				copy(big, buf)
+				for i := len(buf); i < len(big); i++ {
+					big[i] = fillB
+				}
+				got, p := c14Eval(big[:len(buf)], k.Pos, k.Width, k.Signed)
+				if p != "" || got.Cmp(want) != 0 {
+					return true, fmt.Sprintf("spare %d fill %02x: got %v %s want %v", spare, fillB, got, p, want)
+				}
+			}
+		}
+		return false, "independent of the spare capacity"
+	}
 	Replayers["c14-fresh"] = func(c json.RawMessage) (bool, string) {
 		var k c14Case
 		json.Unmarshal(c, &k)
@@ -163,7 +184,7 @@ func init() {
 // C14: bit-field extraction against a big-integer / shift-and-mask reference.
 func C14(r *ev.Run) {
 	thorough := r.Tier == "thorough"
-	r.Rule = "E1: every bit pattern of a 2-byte (quick) / 3-byte (thorough) buffer x every (pos,width) inside it, unsigned and signed, vs shift-and-mask on the whole integer; E2: widths 1..64 x pos 0..23 x buffer sized exactly to the field and a 12-byte buffer x {all0, all1, walking 1, walking 0, every pair of set bits, field-ones/outside-zero, field-zero/outside-ones, top bit only, two alternating patterns} vs math/big; E3: buffers of 2^8, 2^13, 2^16, 2^21, 2^24 (thorough: 2^28, 2^29) + 16 bytes with a position-dependent fill and its complement x every position in the 11 bytes round that byte index x every width, unsigned and signed, vs the reference applied to the bytes that hold the field (index arithmetic far from the start of the buffer); E4: 7 alignments x 17 widths x signedness, each as the first extraction of a fresh process (one child process per case) followed by one other; non-trivial distinct = distinct (width,pos,signedness,pattern class) combinations"
+	r.Rule = "E1: every bit pattern of a 2-byte (quick) / 3-byte (thorough) buffer x every (pos,width) inside it, unsigned and signed, vs shift-and-mask on the whole integer; E2: widths 1..64 x pos 0..23 x buffer sized exactly to the field and a 12-byte buffer x {all0, all1, walking 1, walking 0, every pair of set bits, field-ones/outside-zero, field-zero/outside-ones, top bit only, two alternating patterns} vs math/big, the first ten patterns of each exactly-sized buffer also as slices with 1..9 spare bytes of 00/FF beyond their length; E3: buffers of 2^8, 2^13, 2^16, 2^21, 2^24 (thorough: 2^28, 2^29) + 16 bytes with a position-dependent fill and its complement x every position in the 11 bytes round that byte index x every width, unsigned and signed, vs the reference applied to the bytes that hold the field (index arithmetic far from the start of the buffer); E4: 7 alignments x 17 widths x signedness, each as the first extraction of a fresh process (one child process per case) followed by one other; non-trivial distinct = distinct (width,pos,signedness,pattern class) combinations"
 	r.Assumptions = []string{"reads before the field cannot be observed directly; influence of outside bits is checked by the complement patterns; reads past the end are caught by the exactly-sized buffers (they panic)"}
 	fail := func(buf []byte, pos, width int, signed bool, got, want interface{}, kind string) {
 		s := "unsigned"
@@ -270,6 +291,43 @@ func C14(r *ev.Run) {
 				for b := a + 1; b < hi; b++ {
 					a, b := a, b
 					add(func(k int) bool { return k == a || k == b })
+				}
+			}
+			// the same buffers as slices with spare capacity (a payload cut out of a
+			// frame, a reused receive buffer): what lies beyond len(buf) is not part
+			// of the buffer and must not be read or matter
+			if size == exact {
+				for pi, buf := range pats {
+					if pi >= 10 {
+						break
+					}
+					for _, spare := range []int{1, 2, 3, 4, 5, 8, 9} {
+						for _, fillB := range []byte{0x00, 0xFF} {
+							big := make([]byte, len(buf)+spare)
+							copy(big, buf)
+							for k := len(buf); k < len(big); k++ {
+								big[k] = fillB
+							}
+							view := big[:len(buf)]
+							for _, signed := range []bool{false, true} {
+								if signed && w < 2 {
+									continue
+								}
+								got, p := c14Eval(view, pos, w, signed)
+								calls++
+								want := c14Ref(buf, pos, w, signed)
+								if p != "" || got.Cmp(want) != 0 {
+									s := "unsigned"
+									if signed {
+										s = "signed"
+									}
+									r.Violate(ev.Violation{Fingerprint: fmt.Sprintf("C14 %s buffer-with-spare-capacity width=%d", s, w),
+										What:     fmt.Sprintf("%s extraction of %d bits at %d from %x held in a slice with %d spare bytes (%02x) beyond its length: got %v %s, want %v", s, w, pos, buf, spare, fillB, got, p, want),
+										Case:     c14Case{ev.FullHex(buf), pos, w, signed}, Expected: fmt.Sprint(want), Actual: fmt.Sprint(got), ReplayKind: "c14-spare"})
+								}
+							}
+						}
+					}
 				}
 			}
 			for _, buf := range pats {
